@@ -144,4 +144,549 @@ theorem generic_finals (k : Kind) (e : Env) (hp : NoProcessing e.proxies) :
   · simp [fanout_nil k e hd, finals]
   · simp [fanout_finals_one k e hd hp]
 
+/-! ## proofs of the property theorems (stated in Props.lean) -/
+
+
+/-! ### the model covers the protocol -/
+
+/-- the fold of `notify_proxys` answers Failure iff some destined proxy failed -/
+theorem c08_fanout_failure_iff (d : Dest) (r : ProxyResults) :
+    aggregate d r = some .failure ↔ someDestinedFailed d r :=
+  aggregate_failure_iff d r
+
+/-! ### exactly one final status -/
+
+/-- **Exactly one final status** for EVERY request kind (all 55 `RequestType`
+    variants and a request without type), whatever the proxies, the listener
+    helpers and the worker-level handlers answer. Hypotheses = what the callees
+    do as coded: proxies answer Processing to the stop verbs and only to them
+    (unless a socket deregistration fails, see `_2_finals`). The one genuinely
+    excluded point: a SoftStop is answered OK only when the session count reaches
+    `base_sessions_count` (`e.drained`) — counterexamples below. -/
+theorem c08_exactly_one_final_partial (k : Kind) (e : Env)
+    (hproc : k ≠ .softStop → k ≠ .hardStop → NoProcessing e.proxies)
+    (hstop : k = .softStop ∨ k = .hardStop → aggregate (dests k) e.proxies = some .processing)
+    (hsoft : k = .softStop → e.drained = true) :
+    (finals (respond k e)).length = 1 := by
+  cases k
+  case hardStop =>
+    have ha := hstop (Or.inr rfl)
+    show (finals ((fanout .hardStop e ++ listenerTail .hardStop e) ++ [.ok])).length = 1
+    simp [fanout, ha, listenerTail, finals]
+  case softStop =>
+    have ha := hstop (Or.inl rfl)
+    have hd := hsoft rfl
+    show (finals ((fanout .softStop e ++ listenerTail .softStop e) ++ (if e.drained then [.ok] else []))).length = 1
+    simp [fanout, ha, hd, listenerTail, finals]
+  case returnListenSockets => simp [respond, finals_st]
+  case configureMetrics => simp [respond, notify, finals_st]
+  case queryMetrics => simp [respond, notify, finals_st]
+  case setMetricDetail => simp [respond, notify, finals_st]
+  case logging => simp [respond, notify, finals]
+  case queryClustersHashes => simp [respond, notify, finals]
+  case setMaxConnectionsPerIp => simp [respond, notify, finals]
+  case queryMaxConnectionsPerIp => simp [respond, notify, finals]
+  case queryClustersByDomain => simp [respond, notify, finals]
+  case queryClusterById => simp [respond, notify, finals]
+  case queryCertificatesFromWorkers =>
+    have hp := hproc (by decide) (by decide)
+    show (finals (if e.fingerprint then [st e.workerOk] else
+            fanout .queryCertificatesFromWorkers e ++ listenerTail .queryCertificatesFromWorkers e)).length = 1
+    cases hf : e.fingerprint
+    · simp only [Bool.false_eq_true, if_false]
+      rw [generic_finals _ e hp]; decide
+    · simp [finals_st]
+  case addCluster =>
+    have hp := hproc (by decide) (by decide)
+    show (finals (if e.hcValid then fanout .addCluster e ++ listenerTail .addCluster e else [.failure])).length = 1
+    cases hv : e.hcValid
+    · simp [finals]
+    · simp only [if_true]
+      rw [generic_finals _ e hp]; decide
+  case setHealthCheck =>
+    show (finals (if e.hcValid then [.ok] else [.failure])).length = 1
+    cases e.hcValid <;> simp [finals]
+  case removeHealthCheck => simp [respond, notify, notifyProxys, finals]
+  case addBackend => simp [respond, notify, notifyProxys, finals]
+  case removeBackend => simp [respond, notify, notifyProxys, finals]
+  all_goals
+    (have hp := hproc (by decide) (by decide)
+     show (finals (fanout _ e ++ listenerTail _ e)).length = 1
+     rw [generic_finals _ e hp]; decide)
+
+/-- no request is left without any response (SoftStop: at least its Processing) -/
+theorem c08_never_unanswered (k : Kind) (e : Env)
+    (hproc : k ≠ .softStop → k ≠ .hardStop → NoProcessing e.proxies)
+    (hstop : k = .softStop ∨ k = .hardStop → aggregate (dests k) e.proxies = some .processing) :
+    respond k e ≠ [] := by
+  by_cases hs : k = .softStop
+  · subst hs
+    have ha := hstop (Or.inl rfl)
+    show (fanout .softStop e ++ listenerTail .softStop e) ++ (if e.drained then [.ok] else []) ≠ []
+    simp [fanout, ha]
+  · intro h
+    have := c08_exactly_one_final_partial k e hproc hstop (fun h' => absurd h' hs)
+    rw [h] at this
+    simp [finals] at this
+
+/-- the admissibility hypotheses of `c08_exactly_one_final_partial` for one request -/
+def Admissible (k : Kind) (e : Env) : Prop :=
+  (k ≠ .softStop → k ≠ .hardStop → NoProcessing e.proxies) ∧
+  (k = .softStop ∨ k = .hardStop → aggregate (dests k) e.proxies = some .processing) ∧
+  (k = .softStop → e.drained = true)
+
+/-- **Batches.** Every request the worker reads in one go — up to and including a
+    HardStop, behind which nothing is read any more — gets exactly one final
+    status (no hypothesis on the position of the HardStop: its handler flushes
+    the queued responses before its own OK). -/
+theorem c08_batch_one_final (rs : List (Kind × Env))
+    (hok : ∀ r ∈ rs, Admissible r.1 r.2) :
+    ∀ l ∈ batchDelivered rs, (finals l).length = 1 := by
+  intro l hl
+  have key : ∃ r ∈ rs, l = respond r.1 r.2 := by
+    unfold batchDelivered at hl
+    split at hl
+    · simp only [List.mem_map] at hl
+      obtain ⟨r, hr, rfl⟩ := hl
+      exact ⟨r, List.mem_of_mem_take hr, rfl⟩
+    · simp only [List.mem_map] at hl
+      obtain ⟨r, hr, rfl⟩ := hl
+      exact ⟨r, hr, rfl⟩
+  obtain ⟨r, hr, rfl⟩ := key
+  obtain ⟨h1, h2, h3⟩ := hok r hr
+  exact c08_exactly_one_final_partial r.1 r.2 h1 h2 h3
+
+/-! ### the final status is Failure iff ... (as coded) -/
+
+/-- the condition under which the code answers Failure -/
+def failureCond (k : Kind) (e : Env) : Prop :=
+  match k with
+  | .configureMetrics | .queryMetrics | .setMetricDetail | .returnListenSockets => e.workerOk = false
+  | .queryCertificatesFromWorkers =>
+    if e.fingerprint then e.workerOk = false else someDestinedFailed (dests k) e.proxies
+  | .addCluster => e.hcValid = false ∨ someDestinedFailed (dests k) e.proxies
+  | .setHealthCheck => e.hcValid = false
+  | .addHttpListener | .addHttpsListener | .addTcpListener | .addUdpListener
+  | .updateHttpListener | .updateHttpsListener | .updateTcpListener | .updateUdpListener
+  | .activateListener | .deactivateListener => e.listenerOk = false
+  | .removeListener =>
+    match e.listenerType with
+    | some t => proxyOf t e.proxies = .failure
+    | none => True
+  | .logging | .queryClustersHashes | .queryClusterById | .queryClustersByDomain
+  | .setMaxConnectionsPerIp | .queryMaxConnectionsPerIp | .removeHealthCheck | .addBackend
+  | .removeBackend => False
+  -- fan-out kinds: a destined proxy failed; kinds nothing handles: always refused
+  | _ => someDestinedFailed (dests k) e.proxies ∨ hasDest (dests k) = false
+
+theorem st_eq_failure (b : Bool) : st b = .failure ↔ b = false := by cases b <;> simp [st]
+
+/-- fan-out kinds: the single response is Failure iff a destined proxy failed -/
+theorem fanout_failure (k : Kind) (e : Env) (hd : hasDest (dests k) = true)
+    (hp : NoProcessing e.proxies) :
+    finals (fanout k e) = [.failure] ↔ someDestinedFailed (dests k) e.proxies := by
+  rw [← aggregate_failure_iff]
+  unfold fanout
+  have hs := aggregate_isSome (dests k) e.proxies
+  rw [hd] at hs
+  match h : aggregate (dests k) e.proxies with
+  | some s =>
+    have hn := aggregate_noProcessing _ _ s hp h
+    simp [finals_single, hn]
+  | none => simp [h] at hs
+
+theorem generic_failure_dest (k : Kind) (e : Env) (hd : hasDest (dests k) = true)
+    (hp : NoProcessing e.proxies)
+    (ht : listenerTail k e = if (aggregate (dests k) e.proxies).isSome then [] else [.failure]) :
+    finals (fanout k e ++ listenerTail k e) = [.failure] ↔
+      (someDestinedFailed (dests k) e.proxies ∨ hasDest (dests k) = false) := by
+  have hs := aggregate_isSome (dests k) e.proxies
+  rw [hd] at hs
+  rw [ht, hs]
+  simp only [if_true, List.append_nil, hd, Bool.true_eq_false, or_false]
+  exact fanout_failure k e hd hp
+
+theorem generic_failure_nodest (k : Kind) (e : Env) (hd : hasDest (dests k) = false)
+    (ht : listenerTail k e = if (aggregate (dests k) e.proxies).isSome then [] else [.failure]) :
+    finals (fanout k e ++ listenerTail k e) = [.failure] ↔
+      (someDestinedFailed (dests k) e.proxies ∨ hasDest (dests k) = false) := by
+  rw [fanout_nil k e hd, ht, aggregate_none _ _ hd]
+  simp [finals, hd]
+
+/-- **The final status is Failure iff** the worker-level handler failed / the
+    health check is invalid / the listener step failed / some destined proxy
+    failed / nothing handles the request kind — per kind, as coded
+    (`failureCond`). The stop verbs are covered by `c08_exactly_one_final_partial`
+    (their only final status is the OK). -/
+theorem c08_final_is_failure_iff (k : Kind) (e : Env)
+    (hk : k ≠ .softStop) (hk' : k ≠ .hardStop) (hp : NoProcessing e.proxies) :
+    finals (respond k e) = [.failure] ↔ failureCond k e := by
+  cases k
+  case softStop => exact absurd rfl hk
+  case hardStop => exact absurd rfl hk'
+  case returnListenSockets => simp [respond, finals_st, failureCond, st_eq_failure]
+  case configureMetrics => simp [respond, notify, finals_st, failureCond, st_eq_failure]
+  case queryMetrics => simp [respond, notify, finals_st, failureCond, st_eq_failure]
+  case setMetricDetail => simp [respond, notify, finals_st, failureCond, st_eq_failure]
+  case logging => simp [respond, notify, finals, failureCond]
+  case queryClustersHashes => simp [respond, notify, finals, failureCond]
+  case queryClusterById => simp [respond, notify, finals, failureCond]
+  case setMaxConnectionsPerIp => simp [respond, notify, finals, failureCond]
+  case queryMaxConnectionsPerIp => simp [respond, notify, finals, failureCond]
+  case queryClustersByDomain => simp [respond, notify, finals, failureCond]
+  case removeHealthCheck => simp [respond, notify, notifyProxys, finals, failureCond]
+  case addBackend => simp [respond, notify, notifyProxys, finals, failureCond]
+  case removeBackend => simp [respond, notify, notifyProxys, finals, failureCond]
+  case setHealthCheck =>
+    show finals (if e.hcValid then [.ok] else [.failure]) = [.failure] ↔ e.hcValid = false
+    cases e.hcValid <;> simp [finals]
+  case queryCertificatesFromWorkers =>
+    show finals (if e.fingerprint then [st e.workerOk] else
+          fanout .queryCertificatesFromWorkers e ++ listenerTail .queryCertificatesFromWorkers e) = [.failure]
+        ↔ (if e.fingerprint then e.workerOk = false else someDestinedFailed (dests .queryCertificatesFromWorkers) e.proxies)
+    cases hf : e.fingerprint
+    · simp only [Bool.false_eq_true, if_false]
+      have := generic_failure_dest .queryCertificatesFromWorkers e (by decide) hp rfl
+      simpa [show hasDest (dests .queryCertificatesFromWorkers) = true by decide] using this
+    · simp [finals_st, st_eq_failure]
+  case addCluster =>
+    show finals (if e.hcValid then fanout .addCluster e ++ listenerTail .addCluster e else [.failure]) = [.failure]
+        ↔ (e.hcValid = false ∨ someDestinedFailed (dests .addCluster) e.proxies)
+    cases hv : e.hcValid
+    · simp [finals]
+    · simp only [if_true, Bool.true_eq_false, false_or]
+      have := generic_failure_dest .addCluster e (by decide) hp rfl
+      simpa [show hasDest (dests .addCluster) = true by decide] using this
+  case removeListener =>
+    show finals (fanout .removeListener e ++ listenerTail .removeListener e) = [.failure] ↔ _
+    rw [fanout_nil _ e (by decide)]
+    simp only [List.nil_append, listenerTail, failureCond]
+    cases h : e.listenerType with
+    | none => simp [finals]
+    | some t =>
+      have := proxyOf_noProcessing t e.proxies hp
+      simp [finals_single, this]
+  all_goals first
+    | (show finals (fanout _ e ++ listenerTail _ e) = [.failure] ↔ _
+       rw [fanout_nil _ e (by decide)]
+       simp [listenerTail, failureCond, finals_st, st_eq_failure]
+       done)
+    | exact generic_failure_dest _ e (by decide) hp rfl
+    | exact generic_failure_nodest _ e (by decide) rfl
+
+/-! ### the worker's view converges on the main process' view -/
+
+theorem dispatchView_rejected (v : View) (op : Op) (h : (dispatchView v op).2 = false) :
+    (dispatchView v op).1 = v := by
+  cases op <;> simp only [dispatchView] at h ⊢ <;> (repeat' split at h) <;> (repeat' split) <;> simp_all
+
+theorem dispatchView_unreached (v : View) (op : Op)
+    (h : reachesDispatch op.kind (fingerprintOf op) = false) : (dispatchView v op).1 = v := by
+  cases op with
+  | plain k ok => simp [dispatchView]
+  | queryCerts f' found => simp [dispatchView]
+  | queryCluster c => simp [dispatchView]
+  | setHealthCheck c valid => simp [dispatchView]
+  | removeHealthCheck c => simp [dispatchView]
+  | updateListener t a valid => simp [dispatchView]
+  | removeCert a hv => simp [dispatchView]
+  | replaceCert a hv nv => simp [dispatchView]
+  | addListener t a valid => cases t <;> simp [reachesDispatch, Op.kind] at h
+  | addFront tls f' b1 b2 b3 b4 => cases tls <;> simp [reachesDispatch, Op.kind] at h
+  | removeFront tls f' b1 b2 b3 => cases tls <;> simp [reachesDispatch, Op.kind] at h
+  | addL4Front udp a c => cases udp <;> simp [reachesDispatch, Op.kind] at h
+  | removeL4Front udp a c => cases udp <;> simp [reachesDispatch, Op.kind] at h
+  | addCluster c hv tv kn => simp [reachesDispatch, Op.kind] at h
+  | removeCluster c => simp [reachesDispatch, Op.kind] at h
+  | addBackend c b a => simp [reachesDispatch, Op.kind] at h
+  | removeBackend c b a => simp [reachesDispatch, Op.kind] at h
+  | activate t a => simp [reachesDispatch, Op.kind] at h
+  | deactivate t a => simp [reachesDispatch, Op.kind] at h
+  | removeListener t a => simp [reachesDispatch, Op.kind] at h
+  | addCert a valid => simp [reachesDispatch, Op.kind] at h
+
+/-- one step of a running worker updates its `config_state` with the same
+    `dispatch` the main process uses, whatever the proxies answered -/
+theorem c08_step_view (s : WState) (op : Op) (hs : s.stopped = false) :
+    (step s op).1.view = workerViewStep s.view op := by
+  simp only [step, hs, workerViewStep]
+  cases h : dispatchView s.view op
+  simp
+
+theorem step_stopped (s : WState) (op : Op) (hs : s.stopped = false)
+    (hk : op.kind ≠ .softStop ∧ op.kind ≠ .hardStop) : (step s op).1.stopped = false := by
+  simp only [step, hs]
+  cases h : dispatchView s.view op
+  simp [hk.1, hk.2]
+
+/-- **View convergence.** Start a worker and a main process from the same view;
+    let the main process dispatch any command sequence on its state and forward
+    the commands it accepted (no stop verb: a stopped worker has no view any
+    more). Whatever the proxies answered, the worker's queryable view equals the
+    main process' view. -/
+theorem c08_view_converges (ops : List Op) (s : WState) (hs : s.stopped = false)
+    (hk : ∀ op ∈ ops, op.kind ≠ .softStop ∧ op.kind ≠ .hardStop) :
+    (runState s (forwarded s.view ops)).view = masterRun s.view ops := by
+  induction ops generalizing s with
+  | nil => simp [forwarded, runState, masterRun]
+  | cons op rest ih =>
+    have hk0 := hk op (by simp)
+    have hkr : ∀ o ∈ rest, o.kind ≠ .softStop ∧ o.kind ≠ .hardStop := fun o ho => hk o (by simp [ho])
+    simp only [forwarded, masterRun, List.foldl_cons]
+    by_cases hacc : (dispatchView s.view op).2 = true
+    · simp only [hacc, if_true]
+      simp only [runState, List.foldl_cons]
+      have hview : (step s op).1.view = (dispatchView s.view op).1 := by
+        rw [c08_step_view s op hs]
+        unfold workerViewStep
+        by_cases hr : reachesDispatch op.kind (fingerprintOf op) = true
+        · simp [hr]
+        · have hr' : reachesDispatch op.kind (fingerprintOf op) = false := by simpa using hr
+          simp only [hr', Bool.false_eq_true, if_false]
+          exact (dispatchView_unreached s.view op hr').symm
+      have hst := step_stopped s op hs hk0
+      have := ih (step s op).1 hst hkr
+      rw [hview] at this
+      simpa [runState, masterRun] using this
+    · -- refused by the main process: not forwarded, and its state is unchanged
+      have hacc' : (dispatchView s.view op).2 = false := by simpa using hacc
+      simp only [hacc', Bool.false_eq_true, if_false]
+      rw [dispatchView_rejected s.view op hacc']
+      have := ih s hs hkr
+      simpa [masterRun] using this
+
+
+
+/-! ## histories -/
+
+/-- what the proxies answer as coded: never Processing, except to the stop verbs -/
+theorem proxyStep_noProcessing (s : WState) (op : Op) (h1 : op.kind ≠ .softStop)
+    (h2 : op.kind ≠ .hardStop) : NoProcessing (proxyStep s op).2.proxies := by
+  cases op <;> simp only [proxyStep] <;> (repeat' split) <;>
+    simp_all [NoProcessing, envOf, allOk, unsupported, setProxy, Op.kind]
+
+theorem proxyStep_softStop (s : WState) (b : Bool) :
+    aggregate (dests .softStop) (proxyStep s (.plain .softStop b)).2.proxies = some .processing ∧
+    (proxyStep s (.plain .softStop b)).2.drained = drainedNow s := by
+  refine ⟨?_, ?_⟩
+  · simp only [proxyStep, envOf]; decide
+  · simp only [proxyStep, envOf]
+
+theorem proxyStep_hardStop (s : WState) (b : Bool) :
+    aggregate (dests .hardStop) (proxyStep s (.plain .hardStop b)).2.proxies = some .processing := by
+  simp only [proxyStep, envOf]; decide
+
+/-- only the payload-free op carries a stop verb -/
+theorem kind_stop (op : Op) (h : op.kind = .softStop ∨ op.kind = .hardStop) :
+    ∃ b, op = .plain op.kind b := by
+  cases op
+  case plain k b => exact ⟨b, rfl⟩
+  all_goals (exfalso; revert h; simp only [Op.kind]; (try split) <;> simp)
+
+theorem step_resp (s : WState) (op : Op) (hs : s.stopped = false) :
+    (step s op).2.resp = respond op.kind (proxyStep s op).2 := by
+  simp only [step, hs]
+  cases h : dispatchView s.view op
+  cases h2 : proxyStep s op
+  simp
+
+/-- one request on any running worker state: exactly one final status, unless it is
+    a SoftStop that finds more listener placeholders in the slab than
+    `base_sessions_count` allows -/
+theorem step_one_final (s : WState) (op : Op) (hs : s.stopped = false) :
+    (finals (step s op).2.resp).length = 1 ∨ (op.kind = .softStop ∧ drainedNow s = false) := by
+  by_cases hk : op.kind = .softStop ∧ drainedNow s = false
+  · exact Or.inr hk
+  · left
+    rw [step_resp s op hs]
+    apply c08_exactly_one_final_partial
+    · exact proxyStep_noProcessing s op
+    · intro h
+      obtain ⟨b, hb⟩ := kind_stop op h
+      rcases h with h | h
+      · rw [h] at hb; subst hb; exact (proxyStep_softStop s b).1
+      · rw [h] at hb; subst hb; exact proxyStep_hardStop s b
+    · intro h
+      obtain ⟨b, hb⟩ := kind_stop op (Or.inl h)
+      rw [h] at hb; subst hb
+      rw [(proxyStep_softStop s b).2]
+      cases hd : drainedNow s
+      · exact absurd ⟨rfl, hd⟩ hk
+      · rfl
+
+theorem trace_stopped (s : WState) (ops : List Op) (hs : s.stopped = true) : trace s ops = [] := by
+  cases ops <;> simp [trace, hs]
+
+theorem step_isStop (s : WState) (op : Op) (hs : s.stopped = false) (h : isStop op = true) :
+    (step s op).1.stopped = true := by
+  simp only [step, hs]
+  cases h1 : dispatchView s.view op
+  cases h2 : proxyStep s op
+  simp only [isStop, Bool.or_eq_true] at h
+  rcases h with h | h <;> simp_all
+
+/-- **History level.** Whatever requests were handled before, every request a worker
+    handles gets exactly one final status — unless it is a SoftStop arriving in a
+    state whose slab holds more listener placeholders than `base_sessions_count`. -/
+theorem c08_history_one_final (ops : List Op) (s : WState) :
+    ∀ t ∈ trace s ops, (finals t.2.2.resp).length = 1 ∨
+      (t.2.1.kind = .softStop ∧ drainedNow t.1 = false) := by
+  induction ops generalizing s with
+  | nil => simp [trace]
+  | cons op rest ih =>
+    intro t ht
+    simp only [trace] at ht
+    by_cases hs : s.stopped = true
+    · simp [hs] at ht
+    · have hs' : s.stopped = false := by simpa using hs
+      simp only [hs', Bool.false_eq_true, if_false, List.mem_cons] at ht
+      rcases ht with rfl | ht
+      · exact step_one_final s op hs'
+      · exact ih _ t ht
+
+/-- nothing behind a stop verb is handled: the trace ends with it -/
+theorem c08_nothing_after_stop (s : WState) (op : Op) (rest : List Op) (hs : s.stopped = false)
+    (h : isStop op = true) : trace s (op :: rest) = [(s, op, (step s op).2)] := by
+  simp only [trace, hs, Bool.false_eq_true, if_false]
+  rw [trace_stopped _ rest (step_isStop s op hs h)]
+
+theorem runState_stopped (s : WState) (ops : List Op) (hs : s.stopped = true) : runState s ops = s := by
+  induction ops with
+  | nil => rfl
+  | cons op rest ih =>
+    simp only [runState, List.foldl_cons]
+    have : (step s op).1 = s := by simp [step, hs]
+    rw [this]; exact ih
+
+/-- **View convergence for every command sequence**, stop verbs included: the worker
+    handles what the main process forwarded up to the first stop verb, and its view
+    then equals the main process' view at that point. -/
+theorem c08_view_converges_all (ops : List Op) (s : WState) (hs : s.stopped = false) :
+    (runState s (forwarded s.view ops)).view = masterRun s.view (untilStop ops) := by
+  induction ops generalizing s with
+  | nil => simp [forwarded, runState, masterRun, untilStop]
+  | cons op rest ih =>
+    by_cases hstop : isStop op = true
+    · -- a stop verb: always accepted, leaves both views alone, ends the worker
+      have hk : op.kind = .softStop ∨ op.kind = .hardStop := by
+        simpa [isStop] using hstop
+      obtain ⟨b, hb⟩ := kind_stop op hk
+      have hd : dispatchView s.view op = (s.view, true) := by
+        rcases hk with hk | hk
+        · rw [hk] at hb; subst hb; simp only [dispatchView]; congr 1
+        · rw [hk] at hb; subst hb; simp only [dispatchView]; congr 1
+      simp only [forwarded, hd, if_true, untilStop, hstop, masterRun, List.foldl_cons, List.foldl_nil,
+        runState]
+      have hst := step_isStop s op hs hstop
+      have := runState_stopped (step s op).1 (forwarded s.view rest) hst
+      simp only [runState] at this
+      rw [this, c08_step_view s op hs]
+      unfold workerViewStep
+      split
+      · rw [hd]
+      · rfl
+    · have hstop' : isStop op = false := by simpa using hstop
+      have hk0 : op.kind ≠ .softStop ∧ op.kind ≠ .hardStop := by
+        simpa [isStop] using hstop'
+      simp only [forwarded, masterRun, List.foldl_cons, untilStop, hstop', Bool.false_eq_true, if_false]
+      by_cases hacc : (dispatchView s.view op).2 = true
+      · simp only [hacc, if_true]
+        simp only [runState, List.foldl_cons]
+        have hview : (step s op).1.view = (dispatchView s.view op).1 := by
+          rw [c08_step_view s op hs]
+          unfold workerViewStep
+          by_cases hr : reachesDispatch op.kind (fingerprintOf op) = true
+          · simp [hr]
+          · have hr' : reachesDispatch op.kind (fingerprintOf op) = false := by simpa using hr
+            simp only [hr', Bool.false_eq_true, if_false]
+            exact (dispatchView_unreached s.view op hr').symm
+        have hst := step_stopped s op hs hk0
+        have := ih (step s op).1 hst
+        rw [hview] at this
+        simpa [runState, masterRun] using this
+      · have hacc' : (dispatchView s.view op).2 = false := by simpa using hacc
+        simp only [hacc', Bool.false_eq_true, if_false]
+        rw [dispatchView_rejected s.view op hacc']
+        have := ih s hs
+        simpa [masterRun] using this
+
+/-! ## routing tables vs view -/
+
+def tyOf (tls : Bool) : LType := if tls then .https else .http
+def frontsOf (v : View) (tls : Bool) : List Front := if tls then v.httpsFronts else v.httpFronts
+
+/-- frontend keys the proxy of that protocol routes on address `a` -/
+def routeKeys (s : WState) (tls : Bool) (a : Nat) : List Nat :=
+  match findL s (tyOf tls) a with
+  | some l => l.routes.map (·.1)
+  | none => []
+
+/-- frontend keys the view shows on address `a` -/
+def viewKeys (v : View) (tls : Bool) (a : Nat) : List Nat :=
+  ((frontsOf v tls).filter (·.addr == a)).map (·.key)
+
+def RoutesSync (s : WState) : Prop :=
+  ∀ tls a k, k ∈ routeKeys s tls a ↔ k ∈ viewKeys s.view tls a
+
+theorem findL_mapL (s : WState) (t : LType) (a : Nat) (f : PListener → PListener) (l0 : PListener)
+    (h0 : findL s t a = some l0) (hf : ∀ l, (f l).ty = l.ty ∧ (f l).addr = l.addr) (t' : LType) (a' : Nat) :
+    findL (mapL s t a f) t' a' = (findL s t' a').map (fun l => if l == l0 then f l else l) := by
+  unfold mapL
+  rw [h0]
+  simp only [findL, List.find?_map]
+  congr 1
+  have : ((fun l : PListener => l.ty == t' && l.addr == a') ∘ fun l => if (l == l0) = true then f l else l)
+       = (fun l : PListener => l.ty == t' && l.addr == a') := by
+    funext l
+    simp only [Function.comp]
+    by_cases h : (l == l0) = true
+    · simp [h, (hf l).1, (hf l).2]
+    · simp [h]
+  rw [this]
+
+
+/-- commands that touch neither a proxy's listener table nor the frontends of the view -/
+def routeNeutral (op : Op) : Bool :=
+  match op with
+  | .plain k _ => k != .softStop && k != .hardStop && k != .returnListenSockets
+  | .queryCerts .. | .queryCluster _ | .addCluster .. | .removeCluster _ | .addBackend ..
+  | .removeBackend .. | .setHealthCheck .. | .removeHealthCheck _ | .updateListener ..
+  | .addCert .. | .removeCert .. | .replaceCert .. => true
+  | _ => false
+
+theorem step_neutral (s : WState) (op : Op) (hs : s.stopped = false) (h : routeNeutral op = true) :
+    (step s op).1.listeners = s.listeners ∧ (step s op).1.view.httpFronts = s.view.httpFronts ∧
+    (step s op).1.view.httpsFronts = s.view.httpsFronts := by
+  cases op <;> simp only [routeNeutral] at h <;>
+    simp only [step, hs, proxyStep, dispatchView, Bool.false_eq_true, if_false] <;>
+    (repeat' split) <;> simp_all
+
+
+theorem routesSync_of_eq (s s' : WState) (hl : s'.listeners = s.listeners)
+    (h1 : s'.view.httpFronts = s.view.httpFronts) (h2 : s'.view.httpsFronts = s.view.httpsFronts)
+    (h : RoutesSync s) : RoutesSync s' := by
+  intro tls a k
+  have := h tls a k
+  simp only [routeKeys, findL, viewKeys, frontsOf, hl, h1, h2] at this ⊢
+  exact this
+
+theorem step_neutral_stopped (s : WState) (op : Op) (hs : s.stopped = false)
+    (h : routeNeutral op = true) : (step s op).1.stopped = false := by
+  apply step_stopped s op hs
+  cases op <;> simp_all [routeNeutral, Op.kind] <;> (try split) <;> simp_all
+
+/-- commands on clusters, backends, health checks, certificates, listener patches,
+    queries and worker-level verbs never move the proxies' routing tables away from
+    the frontends of the view — over whole histories -/
+theorem c08_behaviour_matches_view_partial (ops : List Op) (s : WState) (hs : s.stopped = false)
+    (hn : ∀ op ∈ ops, routeNeutral op = true) (h : RoutesSync s) : RoutesSync (runState s ops) := by
+  induction ops generalizing s with
+  | nil => exact h
+  | cons op rest ih =>
+    have h0 := hn op (by simp)
+    obtain ⟨hl, h1, h2⟩ := step_neutral s op hs h0
+    simp only [runState, List.foldl_cons]
+    exact ih (step s op).1 (step_neutral_stopped s op hs h0) (fun o ho => hn o (by simp [ho]))
+      (routesSync_of_eq s _ hl h1 h2 h)
+
 end Sozu.Worker
